@@ -3,6 +3,7 @@ package main
 import (
 	"fmt"
 	"go/ast"
+	"go/constant"
 	"go/token"
 	"go/types"
 	"sort"
@@ -117,6 +118,7 @@ func ruleC16(w *World, r *Report) {
 	const P = "C16"
 	r.Explanation = "Every builder path of P4rtTranslator that returns an entry without error is enumerated on the SSA CFG and checked against the P4Info parsed from conf/p4/bin/p4info.txt on this run: R16.1 TableId names a table; R16.2 every with*MatchField names a field of that table with the helper's match kind, none twice; R16.3 the Go type / constant of each value fits the declared bit width (slice_id, tc, qfi rely on the bounds the property itself states, recorded as assumptions), LPM prefix ≤ width; R16.4 ActionId is in the table's action_refs and not default-only; R16.5 withActionParam names = the action's declared parameter set; " +
 		"R16.6 tables with ternary/range fields get a priority whose minimum under verifyPDR's guard is ≥ 1 (interval argument), others 0; R16.7 meter/counter indices come from pools filled by loops bounded by the P4Info size of the same array, slice/TC index bound ≤ slice meter size, pre/post counters equal-sized; R16.8 every constant and id→name map entry of internal/p4constants agrees with the P4Info and every P4Info object of a generated kind has its constant; R16.9 the generator ranges over maps only to collect keys that are sorted before use, and reads no clock/random/environment."
+	r.Explanation += " R16.8 converter bytes reach match fields and parameters unchanged (leading zeros may be stripped); R16.9 the value passed as tc is the configured class itself (QFIToTC[qfi] / DefaultTC), so the property's bound tc ≤ 3 applies to it."
 	r.NotDecided = "values bounded only by the property's assumptions (QFI ≤ 63, slice ≤ 15, TC ≤ 3) are assumed, not proved; what the switch does with valid writes"
 	info := loadP4Info(w.Repo, P)
 	assumptions := map[string]int64{"slice_id": 15, "tc": 3, "qfi": 63}
@@ -182,6 +184,8 @@ func ruleC16(w *World, r *Report) {
 	ruleC16Indices(w, r, info)
 	ruleC16Constants(w, r, info)
 	ruleC16Generator(w, r)
+	ruleTranslatorBytes(w, r, "C16", "R16.8")
+	ruleC16AssumedArgs(w, r)
 	for a := range usedAssumptions {
 		r.Assumptions = append(r.Assumptions, a)
 	}
@@ -1243,4 +1247,225 @@ func lastSeg(s string) string {
 		return s[i+1:]
 	}
 	return s
+}
+
+// ruleTranslatorBytes (R16.8, re-filed under C07 as R07.8): what the translator's with…MatchField /
+// action-parameter helpers put on the wire is the big-endian encoding convertValueToBinary produced,
+// unchanged or with leading zero bytes stripped (the P4Runtime canonical form). Anything else that
+// touches the bytes — trimming on the right, re-slicing from the end, a lookup — changes the value: the
+// entry is written under another key than the one reported to the control plane.
+func ruleTranslatorBytes(w *World, r *Report, prop, rule string) {
+	conv := w.Fn(prop, "pfcpiface.convertValueToBinary")
+	n := 0
+	for _, f := range w.Funcs {
+		fname := w.FuncName(f)
+		if !strings.HasPrefix(fname, "pfcpiface.(*P4rtTranslator).") && !strings.HasPrefix(fname, "pfcpiface.") {
+			continue
+		}
+		if !strings.Contains(w.Pos(f.Pos()), "p4rt_translator.go") {
+			continue
+		}
+		allInstrs(f, func(i ssa.Instruction) {
+			st, ok := i.(*ssa.Store)
+			if !ok {
+				return
+			}
+			fa, ok := st.Addr.(*ssa.FieldAddr)
+			if !ok || fieldVar(fa) == nil {
+				return
+			}
+			fld := fieldVar(fa).Name()
+			if fld != "Value" && fld != "Mask" && fld != "Low" && fld != "High" {
+				return
+			}
+			owner := ""
+			if nt := namedOf(fa.X.Type()); nt != nil {
+				owner = nt.Obj().Name()
+			}
+			if !strings.HasPrefix(owner, "FieldMatch_") && owner != "Action_Param" {
+				return
+			}
+			// only values that come from the converter (masks built by net.CIDRMask etc. are another rule's business)
+			fromConv, foreign := false, ""
+			var walk func(v ssa.Value, d int)
+			seen := map[ssa.Value]bool{}
+			walk = func(v ssa.Value, d int) {
+				if d > 10 || seen[v] {
+					return
+				}
+				seen[v] = true
+				switch x := v.(type) {
+				case *ssa.Extract:
+					if c, ok := x.Tuple.(*ssa.Call); ok && staticCallee(c) == conv {
+						fromConv = true
+						return
+					}
+					foreign = valueText(v)
+				case *ssa.Call:
+					name := calleeName(x)
+					switch {
+					case name == "bytes.TrimLeft" && len(x.Call.Args) == 2:
+						if cs, ok := x.Call.Args[1].(*ssa.Const); ok && cs.Value != nil && constant.StringVal(cs.Value) == "\x00" {
+							walk(x.Call.Args[0], d+1)
+							return
+						}
+						foreign = "bytes.TrimLeft with another cut set"
+					case strings.HasPrefix(name, "bytes.") || strings.HasPrefix(name, "slices.") || name == "builtin.append" || name == "builtin.copy":
+						// the value passes through a byte-string operation that is not "strip leading zeros"
+						for _, a := range x.Call.Args {
+							sub := map[ssa.Value]bool{}
+							var reaches func(y ssa.Value, dd int) bool
+							reaches = func(y ssa.Value, dd int) bool {
+								if dd > 8 || sub[y] {
+									return false
+								}
+								sub[y] = true
+								switch z := y.(type) {
+								case *ssa.Extract:
+									c, ok := z.Tuple.(*ssa.Call)
+									return ok && staticCallee(c) == conv
+								case *ssa.Phi:
+									for _, e := range z.Edges {
+										if reaches(e, dd+1) {
+											return true
+										}
+									}
+								case *ssa.Slice:
+									return reaches(z.X, dd+1)
+								case *ssa.Call:
+									for _, aa := range z.Call.Args {
+										if reaches(aa, dd+1) {
+											return true
+										}
+									}
+								}
+								return false
+							}
+							if reaches(a, 0) {
+								fromConv = true
+								foreign = shortCallee(name)
+							}
+						}
+					}
+				case *ssa.Slice:
+					if x.High != nil {
+						if reachesConv(x.X, conv, 0) {
+							fromConv = true
+							foreign = "a re-slice that cuts the end (" + valueText(x) + ")"
+						}
+						return
+					}
+					walk(x.X, d+1)
+				case *ssa.Phi:
+					for _, e := range x.Edges {
+						walk(e, d+1)
+					}
+				}
+			}
+			walk(st.Val, 0)
+			if !fromConv {
+				return
+			}
+			n++
+			r.check(foreign == "", rule, fname, owner+"."+fld+" carries the converter's bytes unchanged (leading zeros may be stripped)", w.Pos(st.Pos()), "convertValueToBinary → "+fld, "the bytes written to "+owner+"."+fld+" pass through "+foreign+" after the conversion: values with a zero byte at the end (256, 512, … as TEID or address) are written as a different number than the one the agent reported and stored")
+		})
+	}
+	r.floor(rule+" converter results written to match fields and parameters", n, 5)
+}
+
+func reachesConv(v ssa.Value, conv *ssa.Function, d int) bool {
+	if d > 8 {
+		return false
+	}
+	switch z := v.(type) {
+	case *ssa.Extract:
+		c, ok := z.Tuple.(*ssa.Call)
+		return ok && staticCallee(c) == conv
+	case *ssa.Phi:
+		for _, e := range z.Edges {
+			if reachesConv(e, conv, d+1) {
+				return true
+			}
+		}
+	case *ssa.Slice:
+		return reachesConv(z.X, conv, d+1)
+	case *ssa.Call:
+		for _, a := range z.Call.Args {
+			if reachesConv(a, conv, d+1) {
+				return true
+			}
+		}
+	}
+	return false
+}
+
+// ruleC16AssumedArgs (R16.9): the width check of slice_id, tc and qfi rests on the bounds the property
+// states for the *configured* quantities (slice ≤ 15, traffic class ≤ 3, QFI ≤ 63). That is only an
+// argument when the value handed to the builder IS the configured quantity. For the traffic class: the
+// tc argument of BuildTerminationsTableEntry is up4.conf.QFIToTC[...] or up4.conf.DefaultTC (or a
+// constant ≤ 3) — not something computed from them (a <slice, TC> index does not fit the 2-bit field).
+func ruleC16AssumedArgs(w *World, r *Report) {
+	const P = "C16"
+	build := w.Fn(P, "pfcpiface.(*P4rtTranslator).BuildTerminationsTableEntry")
+	tcIdx := -1
+	for i, p := range build.Params {
+		if p.Name() == "tc" {
+			tcIdx = i
+		}
+	}
+	if tcIdx < 0 {
+		r.bad("R16.9", w.FuncName(build), "BuildTerminationsTableEntry takes the traffic class as parameter tc", w.Pos(build.Pos()), "no parameter named tc")
+		return
+	}
+	n := 0
+	for _, e := range w.CG().callersOf(build) {
+		if strings.HasPrefix(w.FuncName(e.Caller), "test/") {
+			continue
+		}
+		c, ok := e.Site.(ssa.CallInstruction)
+		if !ok || tcIdx >= len(c.Common().Args) {
+			continue
+		}
+		n++
+		arg := c.Common().Args[tcIdx]
+		okAll, bad := true, ""
+		seen := map[ssa.Value]bool{}
+		var leaf func(v ssa.Value, d int)
+		leaf = func(v ssa.Value, d int) {
+			if d > 8 || seen[v] {
+				return
+			}
+			seen[v] = true
+			switch x := v.(type) {
+			case *ssa.Phi:
+				for _, ed := range x.Edges {
+					leaf(ed, d+1)
+				}
+				return
+			case *ssa.Extract:
+				if lk, ok := x.Tuple.(*ssa.Lookup); ok && x.Index == 0 && strings.HasSuffix(symOf(lk.X).String(), "conf.QFIToTC") {
+					return
+				}
+			case *ssa.Lookup:
+				if strings.HasSuffix(symOf(x.X).String(), "conf.QFIToTC") {
+					return
+				}
+			case *ssa.UnOp:
+				if x.Op == token.MUL && strings.HasSuffix(symOf(x.X).String(), "conf.DefaultTC") {
+					return
+				}
+				if s := symOf(x).String(); strings.HasSuffix(s, "conf.DefaultTC") {
+					return
+				}
+			case *ssa.Const:
+				if k, isK := constInt(x); isK && k >= 0 && k <= 3 {
+					return
+				}
+			}
+			okAll, bad = false, symOf(v).String()
+		}
+		leaf(arg, 0)
+		r.check(okAll, "R16.9", w.FuncName(e.Caller), "the tc argument is the configured traffic class itself", w.Pos(c.Pos()), "QFIToTC[qfi] / DefaultTC", "the value passed as tc is "+bad+", not the configured class: the bound 'traffic class ≤ 3' says nothing about it, and the terminations action's tc parameter is 2 bits wide")
+	}
+	r.floor("R16.9 callers of BuildTerminationsTableEntry", n, 1)
 }
